@@ -57,13 +57,21 @@ def coord(cfg, r):
     return r // (D * M), (r // M) % D, r % M
 
 
+def _resolve(v):
+    """['table', [v0, v1, ...]] becomes a callable of the step"""
+    if isinstance(v, list) and v and v[0] == 'table':
+        tbl = v[1]
+        return lambda s, tbl=tbl: tbl[min(s, len(tbl) - 1)]
+    return v
+
+
 def build_precond(model, cfg, dp_group, mp_group):
     from kfac.gpt_neox.preconditioner import GPTNeoXKFACPreconditioner
     kw = {}
     for k in ('factor_update_steps', 'inv_update_steps', 'damping', 'factor_decay', 'kl_clip', 'lr', 'accumulation_steps',
               'allreduce_bucket_cap_mb', 'update_factors_in_hook', 'factor_checkpoint_dir', 'symmetry_aware'):
         if k in cfg:
-            kw[k] = cfg[k]
+            kw[k] = _resolve(cfg[k])
     if 'kl_clip' in cfg and cfg['kl_clip'] is None:
         kw['kl_clip'] = None
     import warnings
@@ -185,7 +193,7 @@ def reference(cfg, history):
                 m.bias.copy_(b.to(dtype))
         mods.append(m)
     model = torch.nn.Sequential(*mods)
-    kw = {k: cfg[k] for k in ('factor_update_steps', 'inv_update_steps', 'damping', 'factor_decay', 'lr', 'accumulation_steps',
+    kw = {k: _resolve(cfg[k]) for k in ('factor_update_steps', 'inv_update_steps', 'damping', 'factor_decay', 'lr', 'accumulation_steps',
                               'update_factors_in_hook') if k in cfg}
     kw['kl_clip'] = cfg.get('kl_clip', 0.001)
     pc = KFACPreconditioner(model, compute_method='eigen', compute_eigenvalue_outer_product=False, **kw)
